@@ -4,6 +4,7 @@ import (
 	"crypto/sha256"
 	"encoding/hex"
 	"fmt"
+	"sort"
 	"strings"
 
 	"verif/pdfgen"
@@ -69,6 +70,58 @@ func genWideTreeDoc(mids, leavesPerMid, namesPerLeaf int) ([]byte, map[string]st
 		Catalog: fmt.Sprintf("/Names << /EmbeddedFiles %d 0 R >>", root),
 		Objects: objs})
 	return b, truth
+}
+
+// genTreeDocKeys writes a document whose EmbeddedFiles name tree holds exactly keys (sorted here), as
+// a three-level tree with leavesPerMid leaves of namesPerLeaf names under every intermediate node.
+func genTreeDocKeys(keys []string, leavesPerMid, namesPerLeaf int) []byte {
+	keys = append([]string(nil), keys...)
+	sort.Strings(keys)
+	pages := []pdfgen.PageSpec{{Marker: "MERGE-SRC-1"}, {Marker: "MERGE-SRC-2"}}
+	base := pdfgen.ExtraBase(len(pages), 2)
+	var objs []string
+	next := func() int { return base + len(objs) }
+	lit := func(s string) string {
+		// PDF literal string with the delimiters and the backslash escaped
+		r := strings.NewReplacer("\\", "\\\\", "(", "\\(", ")", "\\)")
+		return "(" + r.Replace(s) + ")"
+	}
+	var midRefs []string
+	for i := 0; i < len(keys); {
+		var leafRefs []string
+		var midLo, midHi string
+		for l := 0; l < leavesPerMid && i < len(keys); l++ {
+			var names strings.Builder
+			lo := keys[i]
+			hi := lo
+			for k := 0; k < namesPerLeaf && i < len(keys); k++ {
+				key := keys[i]
+				i++
+				hi = key
+				data := attContent(key)
+				ef := next()
+				objs = append(objs, fmt.Sprintf("<< /Type /EmbeddedFile /Length %d /Params << /Size %d /ModDate (D:20240101000000Z) >> >>\nstream\n%s\nendstream", len(data), len(data), data))
+				fs := next()
+				objs = append(objs, fmt.Sprintf("<< /Type /Filespec /F %s /UF %s /EF << /F %d 0 R >> >>", lit(key), lit(key), ef))
+				fmt.Fprintf(&names, "%s %d 0 R ", lit(key), fs)
+			}
+			if midLo == "" {
+				midLo = lo
+			}
+			midHi = hi
+			ref := next()
+			objs = append(objs, fmt.Sprintf("<< /Limits [%s %s] /Names [%s] >>", lit(lo), lit(hi), names.String()))
+			leafRefs = append(leafRefs, fmt.Sprintf("%d 0 R", ref))
+		}
+		ref := next()
+		objs = append(objs, fmt.Sprintf("<< /Limits [%s %s] /Kids [%s] >>", lit(midLo), lit(midHi), strings.Join(leafRefs, " ")))
+		midRefs = append(midRefs, fmt.Sprintf("%d 0 R", ref))
+	}
+	root := next()
+	objs = append(objs, fmt.Sprintf("<< /Kids [%s] >>", strings.Join(midRefs, " ")))
+	return pdfgen.DocX(pages, 2, []int{0}, [][4]float64{{0, 0, 300, 400}}, pdfgen.Extra{
+		Catalog: fmt.Sprintf("/Names << /EmbeddedFiles %d 0 R >>", root),
+		Objects: objs})
 }
 
 // wideShape parses "wide:MxLxN".
